@@ -16,6 +16,8 @@ model functions
   nl.trailing_newlines <text>                    -> n    `offset` of `push_vertical_spaces`
   nl.vspaces <off> <request> <lower> <upper>     -> n    number of `\n` pushed by `push_vertical_spaces`
   nl.clamp <off> <request> <lower> <upper>       -> n    run of `\n` at the end of the buffer afterwards
+  nl.pvs <buffer> <request> <lower> <upper>      -> <buffer afterwards>:<line_number>
+        `FmtVisitor::push_vertical_spaces` on a visitor whose buffer was filled by `push_str(buffer)`
   nl.rtw <text>                                  -> text | panic   `remove_trailing_white_spaces`
   nl.classify <text>                             -> kinds | panic  `CharClasses`, one letter per char:
         n Normal  s StartComment  c InComment  e EndComment  A StartStringCommented
@@ -36,6 +38,11 @@ oracles over a whole emitted text
   nl.oracle.hascrlf <text>                       -> true | false
   nl.oracle.hascrcrlf <text>                     -> true | false   hypothesis of the Unix `_partial` theorems
   nl.oracle.rtwstable <text>                     -> ok | bad    hypothesis of `removeTrailingWhitespace_idem_partial`
+  nl.oracle.indent <hard_tabs 0|1> <text>        -> ok | bad:<l1>,<l2>,…  | panic
+        indentation alphabet: for every line whose first char is classified `Normal` by `CharClasses`
+        (i.e. the line does not start inside a comment or a string literal) the leading run of blanks
+        classified `Normal` is spaces only (hard_tabs 0) or tabs followed only by spaces (hard_tabs 1);
+        a `\r` is ignored.  Answers the 1-based numbers of the offending lines (at most 20).
 -/
 namespace RF.Driver.Newline
 open RF.Proto RF.Newline
@@ -66,6 +73,22 @@ def kindLetter : CC.Kind → Char
   | .startString => 'a' | .endString => 'b' | .inString => 'i'
 
 def okBad (b : Bool) : String := if b then "ok" else "bad"
+
+/-- Scan for `nl.oracle.indent`.  `lead`: still inside the leading blanks of the current line;
+`sp`: a space was seen in them; `flagged`: the line is already reported. -/
+def indentBad (hardTabs : Bool) :
+    Nat → Bool → Bool → Bool → List (CC.Kind × Char) → List Nat
+  | _, _, _, _, [] => []
+  | line, lead, sp, flagged, (k, c) :: rest =>
+    if c = '\n' then indentBad hardTabs (line + 1) true false false rest
+    else if !lead then indentBad hardTabs line false sp flagged rest
+    else if k ≠ .normal then indentBad hardTabs line false sp flagged rest
+    else if c = ' ' then indentBad hardTabs line true true flagged rest
+    else if c = '\r' then indentBad hardTabs line true sp flagged rest
+    else if c = '\t' then
+      if (!hardTabs || sp) && !flagged then line :: indentBad hardTabs line true sp true rest
+      else indentBad hardTabs line true sp flagged rest
+    else indentBad hardTabs line false sp flagged rest
 
 def handle (op : String) (args : List String) : Option String :=
   match op, args with
@@ -107,6 +130,14 @@ def handle (op : String) (args : List String) : Option String :=
     let lo ← lo.toNat?
     let up ← up.toNat?
     pure (toString (clampBlank off n lo up))
+  | "nl.pvs", [b, n, lo, up] => do
+    let b ← decChars b
+    let n ← n.toNat?
+    let lo ← lo.toNat?
+    let up ← up.toNat?
+    let v := (Visitor.mk [] 0).pushStr b
+    let v' := v.pushVerticalSpaces n lo up
+    pure s!"{encChars v'.buffer}:{v'.lineNumber}"
   | "nl.rtw", [t] => do
     let t ← decChars t
     pure (encOptChars (removeTrailingWhiteSpaces t))
@@ -148,6 +179,14 @@ def handle (op : String) (args : List String) : Option String :=
   | "nl.oracle.hascrcrlf", [t] => do
     let t ← decChars t
     pure (toString (hasCrCrLf t))
+  | "nl.oracle.indent", [ht, t] => do
+    let ht ← if ht == "1" then some true else if ht == "0" then some false else none
+    let t ← decChars t
+    match CC.classify t with
+    | none => pure "panic"
+    | some ks =>
+      let bad := (indentBad ht 1 true false false ks).take 20
+      pure (if bad.isEmpty then "ok" else "bad:" ++ String.intercalate "," (bad.map toString))
   | "nl.oracle.rtwstable", [t] => do
     let t ← decChars t
     pure (okBad (rtwStable t))
